@@ -177,7 +177,12 @@ struct Body {
 fn bodies() -> Vec<Body> {
     use Op::*;
     let b = |name: &'static str, cfg: Cfg, t: Vec<Vec<Op>>, probes: Vec<Op>| Body {
-        info: BodyInfo { name, threads: t.len(), ops: format!("cfg={cfg:?} threads={t:?} probes={probes:?}") },
+        info: BodyInfo {
+            name,
+            threads: t.len(),
+            ops: format!("cfg={cfg:?} threads={t:?} probes={probes:?}"),
+            kinds: if t.iter().flatten().any(|o| matches!(o, Op::J(_))) { "JoinRateLimiter::check_join_allowed".into() } else { "rate_limit::Engine::try_consume_*".into() },
+        },
         cfg,
         threads: t,
         probes,
@@ -228,7 +233,7 @@ fn run_op(s: &Subject, op: &Op) -> String {
 fn main() {
     let all = bodies();
     match parse_args() {
-        Cmd::List => print_list(&all.iter().map(|b| BodyInfo { name: b.info.name, threads: b.info.threads, ops: b.info.ops.clone() }).collect::<Vec<_>>()),
+        Cmd::List => print_list(&all.iter().map(|b| BodyInfo { name: b.info.name, threads: b.info.threads, ops: b.info.ops.clone(), kinds: b.info.kinds.clone() }).collect::<Vec<_>>()),
         Cmd::Run { body, opts } => {
             let Some(b) = all.into_iter().find(|b| b.info.name == body) else {
                 eprintln!("unknown body {body}");
